@@ -917,7 +917,7 @@ def outlay_rules(chk, pid):
     n = 0
     code_cases, ref_cases = S.return_cases(), ref.return_cases()
     pnone = ("isnone", ("param", "p"))
-    for pol in (True, False):
+    for pol in ((True,) if pid == "C05" else (True, False)):
         gg = sym.sat([(pnone, pol)])
         cc = [sym.restrict(v, gg) for g, v in code_cases if _consistent(gg, g)]
         rr = [sym.restrict(v, gg) for g, v in ref_cases if _consistent(gg, g)]
@@ -937,7 +937,7 @@ def outlay_rules(chk, pid):
             chk.ob("C07.R1", ok, CORE, host, "outlay-component:%s:%s" % (names[i], "market" if pol else "custom-price"),
                    "each trade moves q x price x multiplier plus the half-spread (or custom-price difference) as outlay and commission(q, price x multiplier) as fee",
                    where=fi.where, expected=short(rv[1 + i], 200), found=short(v[1 + i], 200), sample={"component": names[i], "value": short(v[1 + i], 160)})
-    chk.need(n >= 8, "SecurityBase.outlay: could not align its return cases with the reference")
+    chk.need(n >= (4 if pid == "C05" else 8), "SecurityBase.outlay: could not align its return cases with the reference")
     # purity (C05.R8 / C07.R6)
     ws = [e for e in S.events if e.kind in ("write", "store") or (e.kind == "call" and e.extra == "mutate")]
     chk.ob("C07.R6", not ws, CORE, host, "outlay-pure", "probing the cost of a trade books nothing", where=fi.where, found="; ".join(repr(e)[:80] for e in ws[:3]))
@@ -1015,8 +1015,9 @@ def transact_rules(chk, pid):
             if pid == "C07":
               chk.ob("C07.R2", ok, CORE, host, "adjust-fee", "the commission is recorded as the parent's fee, once", where=a.where, expected="fee = commission component of outlay()",
                    found=short(f, 160) if f else "missing")
-            u = ab.get("update")
-            chk.ob("C01.R6", u is not None and canon(u) == canon(("param", "update")), CORE, host, "adjust-update-flag", "the caller's update flag is handed to the parent", where=a.where)
+            if a is adj[-1] and pid == "C01":
+                u = ab.get("update")
+                chk.ob("C01.R6", u is not None and canon(u) == canon(("param", "update")), CORE, host, "adjust-update-flag", "the caller's update flag is handed to the parent", where=a.where)
         if pid in ("C03", "C07"):
             fl = ab.get("flow")
             chk.ob("C03.R4", fl is not None and canon(fl) == canon(sym.FALSE), CORE, host, "adjust-flow:trade", "trade proceeds and fees are never a flow", where=a.where,
@@ -1219,7 +1220,7 @@ def defer_rules(chk, pid, modules=("bt/core.py", "bt/algos.py"), only_hosts=None
                    where=e.where, expected="refresh of the ROOT after the deferred call", found="no closing refresh on the path",
                    sample={"call": "%s(update=False)" % e.name, "closer": repr(closers[0])[:120] if closers else None})
             for c in closers[:1]:
-                if c.kind == "call":
+                if c.kind == "call" and c.name == "update":
                     base = c.recv[1]
                     a0 = c.args[0] if c.args else None
                     ok = a0 is not None and a0[0] == "fld" and a0[2] == "now" and (canon(a0[1]) == canon(base) or canon(a0[1]) == canon(c.recv))
@@ -1479,6 +1480,22 @@ FRESH_HOSTS = {
 }
 
 
+def _fi_branch(fnode, target):
+    """'fi' / 'mv' when `target` sits in the body / orelse of an `if self.fixed_income:` of the function, else None."""
+    def is_fi_test(t):
+        return isinstance(t, ast.Attribute) and t.attr in ("fixed_income", "_fixed_income")
+
+    for n in ast.walk(fnode):
+        if isinstance(n, ast.If) and is_fi_test(n.test):
+            for b in n.body:
+                if any(x is target for x in ast.walk(b)):
+                    return "fi"
+            for b in n.orelse:
+                if any(x is target for x in ast.walk(b)):
+                    return "mv"
+    return None
+
+
 def fresh_read_rules(chk, pid, hosts_for=None):
     """T-FRESH: derived state of *another* node (value, notional, weight, price) is read through its
     refreshing accessor, never through the cached field, except at the enumerated sites."""
@@ -1497,6 +1514,11 @@ def fresh_read_rules(chk, pid, hosts_for=None):
                 if isinstance(base, ast.Name) and base.id == "self":
                     continue
                 role = derived[node.attr]
+                branch = _fi_branch(f.node, node)
+                if pid == "C06" and branch == "fi":
+                    continue
+                if pid == "C17" and branch == "mv":
+                    continue
                 n += 1
                 chk.site()
                 if f.cls == "StrategyBase" and f.name == "update":
